@@ -396,13 +396,27 @@ def roundtrip(task):
                 obj = relayout(obj, seed % 4)
             ev["layout"] = ["C", "F", "strided", "readonly"][seed % 4]
             path = os.path.join(tmp, O.SUFFIX[real_fmt(fmt)])
+            # the trajectory formats: every other object goes through dump_many / load_many (a trajectory of one frame), with the
+            # same keyword arguments -- the same data must come back
+            many = real_fmt(fmt) in O.DUMP_MANY and (seed // 4) % 2 == 1
+            ev["api"] = "many" if many else "one"
             try:
-                api.dump_one(obj, path, fmt=real_fmt(fmt), **io_kwargs(fmt))
+                if many:
+                    api.dump_many(iter([obj]), path, fmt=real_fmt(fmt), **io_kwargs(fmt))
+                else:
+                    api.dump_one(obj, path, fmt=real_fmt(fmt), **io_kwargs(fmt))
             except Exception as exc:  # noqa: BLE001
                 ev["dump"] = classify_exc(exc) + ":" + str(exc.__cause__ or exc)[:80].replace(tmp, "")
                 return ev
             try:
-                back = api.load_one(path, fmt=real_fmt(fmt), **io_kwargs(fmt))
+                if many:
+                    frames = list(api.load_many(path, fmt=real_fmt(fmt), **io_kwargs(fmt)))
+                    if len(frames) != 1:
+                        ev["load"] = f"other:{len(frames)} frames loaded from a trajectory of one"
+                        return ev
+                    back = frames[0]
+                else:
+                    back = api.load_one(path, fmt=real_fmt(fmt), **io_kwargs(fmt))
             except Exception as exc:  # noqa: BLE001
                 ev["load"] = classify_exc(exc) + ":" + str(exc.__cause__ or exc)[:80].replace(tmp, "")
                 return ev
